@@ -80,29 +80,42 @@ func typed(err error) bool {
 	}
 	var a *sem.ParseError[string]
 	var b *sem.ParseError[[]byte]
-	return errors.As(err, &a) || errors.As(err, &b)
+	var c *sem.ParseError[namedS]
+	var d *sem.ParseError[namedB]
+	return errors.As(err, &a) || errors.As(err, &b) || errors.As(err, &c) || errors.As(err, &d)
 }
 
 type entry struct {
 	name, form string
-	call       func(text string) (sem.Ver, error)
+	bytes      bool // the input is handed over in the worker's reused byte buffer
+	call       func(text string, w *vkit.W) (sem.Ver, error)
 }
 
+type (
+	namedS string
+	namedB []byte
+)
+
 var entries = []entry{
-	{"Parse[string]", "any", func(s string) (sem.Ver, error) { return sem.Parse(s) }},
-	{"Parse[[]byte]", "any", func(s string) (sem.Ver, error) { return sem.Parse([]byte(s)) }},
-	{"ParseVersion[string]", "version", func(s string) (sem.Ver, error) { return sem.ParseVersion(s) }},
-	{"ParseVersion[[]byte]", "version", func(s string) (sem.Ver, error) { return sem.ParseVersion([]byte(s)) }},
-	{"ParseTag[string]", "tag", func(s string) (sem.Ver, error) { return sem.ParseTag(s) }},
-	{"ParseTag[[]byte]", "tag", func(s string) (sem.Ver, error) { return sem.ParseTag([]byte(s)) }},
-	{"DefaultParser[string](0)", "any", func(s string) (sem.Ver, error) { return sem.DefaultParser(s, 0) }},
-	{"DefaultParser[[]byte](0)", "any", func(s string) (sem.Ver, error) { return sem.DefaultParser([]byte(s), 0) }},
-	{"DefaultParser[string](RuleDisableTag)", "version", func(s string) (sem.Ver, error) { return sem.DefaultParser(s, sem.RuleDisableTag) }},
-	{"DefaultParser[[]byte](RuleDisableTag)", "version", func(s string) (sem.Ver, error) { return sem.DefaultParser([]byte(s), sem.RuleDisableTag) }},
-	{"UnmarshalText", "any", func(s string) (sem.Ver, error) {
+	{"Parse[string]", "any", false, func(s string, _ *vkit.W) (sem.Ver, error) { return sem.Parse(s) }},
+	{"Parse[[]byte]", "any", true, func(s string, w *vkit.W) (sem.Ver, error) { return sem.Parse(w.Scratch(s)) }},
+	{"ParseVersion[string]", "version", false, func(s string, _ *vkit.W) (sem.Ver, error) { return sem.ParseVersion(s) }},
+	{"ParseVersion[[]byte]", "version", true, func(s string, w *vkit.W) (sem.Ver, error) { return sem.ParseVersion(w.Scratch(s)) }},
+	{"ParseTag[string]", "tag", false, func(s string, _ *vkit.W) (sem.Ver, error) { return sem.ParseTag(s) }},
+	{"ParseTag[[]byte]", "tag", true, func(s string, w *vkit.W) (sem.Ver, error) { return sem.ParseTag(w.Scratch(s)) }},
+	{"DefaultParser[string](0)", "any", false, func(s string, _ *vkit.W) (sem.Ver, error) { return sem.DefaultParser(s, 0) }},
+	{"DefaultParser[[]byte](0)", "any", true, func(s string, w *vkit.W) (sem.Ver, error) { return sem.DefaultParser(w.Scratch(s), 0) }},
+	{"DefaultParser[string](RuleDisableTag)", "version", false, func(s string, _ *vkit.W) (sem.Ver, error) { return sem.DefaultParser(s, sem.RuleDisableTag) }},
+	{"DefaultParser[[]byte](RuleDisableTag)", "version", true, func(s string, w *vkit.W) (sem.Ver, error) { return sem.DefaultParser(w.Scratch(s), sem.RuleDisableTag) }},
+	{"Parse[named string]", "any", false, func(s string, _ *vkit.W) (sem.Ver, error) { return sem.Parse(namedS(s)) }},
+	{"ParseTag[named []byte]", "tag", true, func(s string, w *vkit.W) (sem.Ver, error) { return sem.ParseTag(namedB(w.Scratch(s))) }},
+	{"DefaultParser[named []byte](RuleDisableTag)", "version", true, func(s string, w *vkit.W) (sem.Ver, error) {
+		return sem.DefaultParser(namedB(w.Scratch(s)), sem.RuleDisableTag)
+	}},
+	{"UnmarshalText", "any", true, func(s string, w *vkit.W) (sem.Ver, error) {
 		v := sem.Ver{Major: 7, Minor: 7, Patch: 7, PreRelease: "sentinel", Build: "sentinel"}
 		keep := v
-		err := v.UnmarshalText([]byte(s))
+		err := v.UnmarshalText(w.Scratch(s))
 		if err != nil {
 			if v != keep {
 				return v, fmt.Errorf("receiver changed on error: %w", errReceiver)
@@ -119,7 +132,17 @@ func judgeText(c Case, w *vkit.W) (accepted bool) {
 	text := string(c.Text)
 	for _, e := range entries {
 		v := oracle(text, e.form)
-		got, err := e.call(text)
+		got, err := e.call(text, w)
+		if e.bytes && err == nil {
+			// the caller reuses its buffer: the returned value must not change with it
+			before := got
+			before.PreRelease, before.Build = strings.Clone(got.PreRelease), strings.Clone(got.Build)
+			w.Scratch(strings.Repeat("\xaa", len(text)))
+			if got != before {
+				w.Fail(c, "value-aliases-input", fmt.Sprintf("%s(%q): after the caller overwrote its buffer the returned value changed from %+v to %+v", e.name, text, before, got))
+				got = before
+			}
+		}
 		if errors.Is(err, errReceiver) {
 			w.Fail(c, "receiver-changed-on-error", fmt.Sprintf("%s(%q): %v; receiver now %+v", e.name, text, err, got))
 			continue
@@ -259,7 +282,7 @@ func TestCheck(t *testing.T) {
 	})
 
 	L := r.Pick(7, 9)
-	r.Phase(fmt.Sprintf("A: every string over {0,1,9,a,Z,-,.,+,v} up to length %d x 11 entry points", L), func() {
+	r.Phase(fmt.Sprintf("A: every string over {0,1,9,a,Z,-,.,+,v} up to length %d x 14 entry points", L), func() {
 		for n := 0; n <= L; n++ {
 			total := int64(1)
 			for i := 0; i < n; i++ {
@@ -287,7 +310,47 @@ func TestCheck(t *testing.T) {
 			})
 		}
 	})
-	r.Exhaustive(fmt.Sprintf("every string over {0,1,9,a,Z,-,.,+,v} of length 0..%d through all 11 parser entry points", L))
+	r.Exhaustive(fmt.Sprintf("every string over {0,1,9,a,Z,-,.,+,v} of length 0..%d through all 14 parser entry points", L))
+
+	// Phase A2: every one-byte substitution and insertion (all 256 byte values) in every accepted text of the length<=7 universe
+	// and in a set of longer accepted texts: characters outside the enumeration alphabet next to valid structure.
+	r.Phase("A2: all one-byte substitutions/insertions (256 values) of accepted texts", func() {
+		var accepted []string
+		var rec func(prefix []byte, depth int)
+		rec = func(prefix []byte, depth int) {
+			if len(prefix) >= 5 {
+				if v := oracle(string(prefix), "any"); v.ok {
+					accepted = append(accepted, string(prefix))
+				}
+			}
+			if depth == 0 {
+				return
+			}
+			for _, ch := range alphabet {
+				rec(append(prefix, ch), depth-1)
+			}
+		}
+		rec(nil, r.Pick(6, 7))
+		accepted = append(accepted, "1.2.3-alpha.1+build.5", "v10.20.30-rc.1", "1.0.0-0a.b-c+d.0", "18446744073709551615.0.0", "v0.0.0+0")
+		r.Extra("A2_base_texts", len(accepted))
+		r.Parallel(int64(len(accepted)), 4, func(w *vkit.W, lo, hi int64) {
+			for i := lo; i < hi; i++ {
+				base := accepted[i]
+				for pos := 0; pos <= len(base); pos++ {
+					for bv := 0; bv < 256; bv++ {
+						if pos < len(base) && byte(bv) != base[pos] {
+							m := base[:pos] + string([]byte{byte(bv)}) + base[pos+1:]
+							judge(Case{Kind: "text", Text: vkit.B(m)}, w)
+							w.EvalRandom(vkit.Hash64(m), true)
+						}
+						m := base[:pos] + string([]byte{byte(bv)}) + base[pos:]
+						judge(Case{Kind: "text", Text: vkit.B(m)}, w)
+						w.EvalRandom(vkit.Hash64(m), true)
+					}
+				}
+			}
+		})
+	})
 
 	r.Phase("B: rapid grammar-generated versions with long numbers, long identifier lists, length near MaxInputLength, 0-2 edits", func() {
 		r.Rapid(t, "rapid-grammar", 0, r.Pick(20000, 1500000), func(rt *rapid.T, w *vkit.W) vkit.RapidCase {
